@@ -302,8 +302,8 @@ theorem callFn_closure {fuel a bound env pos s cenv params defaults body name s1
     callFn ld (fuel+1) (.closure a) bound env pos s =
       match eval ld fuel (s.frames.size) body s1 with
       | .ok (.ret v _) s' => .ok v s'
-      | .ok (.brk _) s' => throwE "break outside of a loop" {} s'
-      | .ok (.cont _) s' => throwE "continue outside of a loop" {} s'
+      | .ok (.brk p) s' => throwE "Cannot use break without surrounding loop" p s'
+      | .ok (.cont p) s' => throwE "Cannot use continue without surrounding loop" p s'
       | .ok v s' => .ok v s'
       | .err v m p t s' => .err v m p t s'
       | .fail f s' => .fail f s' := by
